@@ -39,7 +39,8 @@ def main():
         if not os.path.exists(p):
             print("MISSING", p)
             return 2
-    env = {"PYTHONPATH": wt, "NUMBA_DISABLE_JIT": os.environ.get("NUMBA_DISABLE_JIT", "0")}
+    env = {"PYTHONPATH": wt, "NUMBA_DISABLE_JIT": os.environ.get("NUMBA_DISABLE_JIT", "0"),
+           "OMP_NUM_THREADS": "1", "OPENBLAS_NUM_THREADS": "1", "MKL_NUM_THREADS": "1", "NUMBA_NUM_THREADS": "1"}
     sh("git checkout -- . ", wt)
     rc, o = sh("git apply --check %s" % diff, wt)
     if rc != 0:
